@@ -468,7 +468,6 @@ func (p *c03) Meta() core.Meta {
 	}
 }
 
-
 // c03Stepwise evaluates a statement through the exported clause functions: WHERE row by row, then
 // GROUP BY (with HAVING), then the select list.
 func c03Stepwise(doc map[string]any, sql string) (rows []string, problem string) {
